@@ -285,3 +285,25 @@ def reading(v):
             "public": vstr(pub), "base": vstr(V(v.epoch, v.release, None, None, None, None)),
             "is_pre": v.pre is not None or v.dev is not None, "is_post": v.post is not None, "is_dev": v.dev is not None,
             "major": rel[0], "minor": rel[1] if len(rel) > 1 else 0, "micro": rel[2] if len(rel) > 2 else 0}
+
+
+# ---- look-alike letters: characters whose str.lower() / str.upper() / casefold() lands on an ASCII letter ----
+CONFUSABLE = {"k": ["\u212a"], "s": ["\u017f"], "i": ["\u0131", "\u0130"], "a": ["\uff41", "\u0430"], "e": ["\u0435"], "o": ["\u043e", "\uff4f"],
+              "c": ["\u0441"], "p": ["\u0440"], "r": ["\u0280"], "b": ["\uff42"], "v": ["\u2174"], "d": ["\u217e"]}
+K_TOKENS = ["k", "kernel", "1k", "k1", "rc1k", "ok", "K"]
+
+
+def confuse_letter(rng, s):
+    """s with one ASCII letter replaced by a look-alike (None when s has no such letter)"""
+    pos = [i for i, ch in enumerate(s) if ch.lower() in CONFUSABLE]
+    if not pos: return None
+    i = rng.choice(pos)
+    return s[:i] + rng.choice(CONFUSABLE[s[i].lower()]) + s[i + 1:]
+
+
+def rand_v_with_k(rng):
+    """a version whose local label holds a token with the letter k (the only ASCII letter another character lower-cases to)"""
+    v = rand_v(rng, local_p=0)
+    toks = tuple(rng.choice(K_TOKENS) for _ in range(rng.choice([1, 1, 2])))
+    if rng.random() < 0.5: toks = toks + (rng.choice(LOCAL_SEGS),)
+    return replace(v, local=toks)
